@@ -101,6 +101,8 @@ def cells(tier, seed):
                 for lik_batch in ([False] if shape == () or name == "Bernoulli" else [False, True]):
                     out.append({"what": "likelihood-elp", "likelihood": name, "pset": pset, "shape": list(shape), "lik_batch": lik_batch,
                                 "dense": tier == "thorough"})
+    for name in LIKS:
+        out.append({"what": "call-sequence", "likelihood": name})
     for mixing in (True, False):
         out.append({"what": "softmax", "mixing": mixing})
     # ---- log_normal_cdf
@@ -139,7 +141,7 @@ def run_cell(cell, seed):
     g = util.gen(seed, "c13|" + util.jdump(cell))
     fn = {"gh-poly": run_poly, "num-locs-setting": run_setting, "bernoulli": run_bernoulli, "forward-params": run_forward,
           "likelihood-elp": run_elp, "softmax": run_softmax, "lncdf-boundary": run_lncdf_boundary, "lncdf-tails": run_lncdf_tails,
-          "lncdf-lattice": run_lncdf_lattice, "lncdf-sweep": run_lncdf_sweep}[what]
+          "lncdf-lattice": run_lncdf_lattice, "lncdf-sweep": run_lncdf_sweep, "call-sequence": run_call_sequence}[what]
     _DIAG.clear()
     with torch.no_grad():
         ops = fn(cell, g, fails, notes, feats)
@@ -348,6 +350,66 @@ def run_bernoulli(cell, g, fails, notes, feats):
                      f"y={yv} m={float(mean[i])} v={float(var[i])} got={float(got[i])!r} want={float(want[i])!r}")
     notes["bernoulli_lm_saturated"] = sat
     return ops
+
+
+# ================================================================================================== call sequences on one instance
+def run_call_sequence(cell, g, fails, notes, feats):
+    """A likelihood holds no state besides its parameters: on ONE instance, after every sequence of at most three calls (method x kind of
+    observation batch), each call returns what a freshly built instance returns for the same arguments. All sequences are enumerated."""
+    import itertools
+    import warnings
+    name = cell["likelihood"]
+    n = 4
+    m, C = util.randn(g, n), util.spd(g, n)
+    dist = MVN(m, C)
+    if name == "Bernoulli":
+        obs = {"ones": torch.ones(n), "zeros": torch.zeros(n), "01": torch.tensor([0.0, 1.0, 1.0, 0.0]),
+               "-1+1": torch.tensor([-1.0, 1.0, 1.0, -1.0]), "all-1": -torch.ones(n)}
+    elif name == "Beta":
+        obs = {"a": torch.tensor([0.2, 0.7, 0.5, 0.9]), "b": torch.tensor([0.6, 0.1, 0.3, 0.8])}
+    else:
+        obs = {"a": torch.tensor([-0.5, 1.2, 0.3, 2.0]), "b": torch.tensor([1.5, -1.2, 0.0, 0.4]), "c": torch.zeros(n)}
+    obs = {k: v.to(F64) for k, v in obs.items()}
+    alphabet = [(meth, k) for meth in ("expected_log_prob", "log_marginal") for k in obs] + [("marginal", None)]
+
+    def call(lik, a):
+        meth, k = a
+        torch.manual_seed(17)  # the sampling-based marginal of the non-analytic likelihoods draws from the global generator: owned
+        with warnings.catch_warnings():
+            warnings.simplefilter("ignore")
+            if meth == "marginal":
+                out = lik(dist)
+                return torch.cat([getattr(out, "probs", getattr(out, "mean", None)).reshape(-1)])
+            return getattr(lik, meth)(obs[k], dist)
+
+    def fresh():
+        return _build_lik(name, PSETS[name][0], ())[0]
+
+    want = {}
+    for a in alphabet:
+        try:
+            want[a] = call(fresh(), a)
+        except Exception as e:  # judged by the other cells; a call that raises on a fresh instance is not part of the alphabet
+            want[a] = None
+    alphabet = [a for a in alphabet if want[a] is not None]
+    nseq = 0
+    for depth in (1, 2, 3):
+        for seq in itertools.product(alphabet, repeat=depth):
+            lik = fresh()
+            nseq += 1
+            for i, a in enumerate(seq):
+                try:
+                    got = call(lik, a)
+                except Exception as e:
+                    _add(fails, "call-sequence", f"{a[0]}({a[1]}) raises after {list(seq[:i])}: {util.exc_str(e)}")
+                    break
+                if i == depth - 1 or True:
+                    if tuple(got.shape) != tuple(want[a].shape) or util.maxerr(got, want[a]) > 1e-12:
+                        _add(fails, "call-sequence", f"{a[0]} on observations '{a[1]}' after the calls {[f'{x[0]}({x[1]})' for x in seq[:i]]} differs from "
+                             f"a fresh instance: err={util.maxerr(got, want[a]) if tuple(got.shape) == tuple(want[a].shape) else float('nan'):.3e}")
+                        break
+    notes["sequences"] = nseq
+    return nseq
 
 
 # ================================================================================================== conditional distributions
